@@ -235,7 +235,8 @@ def run_case(case):
     final = {}
     for a in r.bm.atoms:
         final[(a.res_seq, a.name)] = a
-    strict = case["opt"] in ("clean", "assign_only", "nodebump_noopt")
+    strict = case["opt"] in ("clean", "assign_only", "nodebump_noopt",
+                             "nodebump_noopt_pka")
     moved_heavy = []
     # The optimiser may exchange the *names* of the two chemically equivalent
     # carboxyl oxygens of a protonated ASP/GLU so that the proton sits on
@@ -367,6 +368,13 @@ def enumerate_cases(tier, seed):
     cases += s3.gap_cases("AMBER", ("default", "noopt"))
     cases += s3.rebuilt_clash_cases("AMBER", opts=("default", "nodebump",
                                                    "nodebump_noopt"))
+    # the same clashes through the pKa path with debumping switched off
+    for c in s3.clash_cases("AMBER", names=["HIS", "LYS", "SER", "ILE", "TRP",
+                                            "ARG", "ASN", "THR", "GLY"]
+                            if tier == "quick" else None):
+        c = dict(c)
+        c["opt"] = "nodebump_noopt_pka"
+        cases.append(c)
     cases += s3.asym_acid_cases()
     cases += s3.tetra_partner_cases("AMBER")
     cases += s3.torsion_cases("AMBER")
